@@ -39,3 +39,43 @@ def provesClient (issuer : String) (maxAgeIAT offset : Int) (registry : List (St
   | some c => if (assertionOK issuer maxAgeIAT offset true registry t now c).isNone then some c.iss else none
 
 end C14
+
+namespace C14
+
+/-- the plain parameters that a request object may override -/
+def overridable (a : AuthRequestIn) : AuthRequestIn := { a with RequestParam := "", RequestToken := default }
+
+/-- Request objects: if the provider went on with parameters that differ from the plain ones (or at
+    all accepted the object), the object must be a token signed by a key registered for the REQUESTING
+    client, name it as issuer, target this issuer and agree with the outer client_id / response_type. -/
+def requestObjectOK (issuer : String) (registry : List (String × JWK)) (plain : AuthRequestIn) (after : Option AuthRequestIn) : Option String :=
+  match after with
+  | none => none
+  | some a' =>
+    match plain.RequestToken.middle.bind (·.claims) with
+    | none => some "accepted-undecodable-object"
+    | some ro =>
+      match C02.acceptedOK [] (clientKeys registry plain.ClientID) plain.RequestToken ro with
+      | some cl => some ("not-signed-by-the-requesting-client:" ++ cl)
+      | none =>
+        if ro.iss != plain.ClientID then some "issuer-is-not-the-requesting-client"
+        else if !ro.aud.contains issuer then some "audience"
+        else if ro.clientID != plain.ClientID then some "client_id-disagrees"
+        else if ro.ro.ResponseType != "" && ro.ro.ResponseType != plain.ResponseType then some "response_type-disagrees"
+        else
+          -- only parameters present in the object may change, and they change to the object's value
+          let ok :=
+            (a'.RedirectURI == (if ro.ro.RedirectURI != "" then ro.ro.RedirectURI else plain.RedirectURI)) &&
+            (a'.State == (if ro.ro.State != "" then ro.ro.State else plain.State)) &&
+            (a'.Nonce == (if ro.ro.Nonce != "" then ro.ro.Nonce else plain.Nonce)) &&
+            (a'.ResponseMode == (if ro.ro.ResponseMode != "" then ro.ro.ResponseMode else plain.ResponseMode)) &&
+            (a'.CodeChallenge == (if ro.ro.CodeChallenge != "" then ro.ro.CodeChallenge else plain.CodeChallenge)) &&
+            (a'.CodeChallengeMethod == (if ro.ro.CodeChallengeMethod != "" then ro.ro.CodeChallengeMethod else plain.CodeChallengeMethod)) &&
+            (a'.Scopes == (if plain.Scopes.contains "openid" && !ro.ro.Scopes.isEmpty then ro.ro.Scopes else plain.Scopes)) &&
+            (a'.ClientID == plain.ClientID) && (a'.ResponseType == plain.ResponseType)
+          if ok then none else some "parameters-not-from-object-or-query"
+
+/-- assertions minted by the library's own client helper for a registered key must be accepted -/
+def helperOK (accepted : Bool) : Option String := if accepted then none else some "helper-assertion-rejected"
+
+end C14
